@@ -70,13 +70,16 @@ Merge(stack, wholeEntry) ==
 \* rule's own entry; afterwards the same three for the file_list entry and for the file_rules entry.
 \*   inConf: the attribute is in rule.configuration (needed at the global level); groupsReach: FALSE models "only the most
 \*   specific group is applied" (a mutant)
-ImplValue(stack, a, default, wholeEntry, inConf, parentGroupApplies) ==
+ImplValueG(stack, a, default, wholeEntry, inConf, parentGroupApplies, hasSub) ==
   LET m == Merge(stack, wholeEntry)
       apply(v, s) == IF Mentions(m[s], a) THEN m[s][a] ELSE v
       order == <<"global", "gpar", "gsub", "rule", "fl_global", "fl_gpar", "fl_gsub", "fl_rule", "fr_global", "fr_gpar", "fr_gsub", "fr_rule">>
-      usable(s) == /\ (s \in {"global", "fl_global", "fr_global"} => inConf)
+      usable(s) == /\ (s \in {"gsub", "fl_gsub", "fr_gsub"} => hasSub)        \* a sub group section only reaches rules of that sub group
+                   /\ (s \in {"global", "fl_global", "fr_global"} => inConf)
                    /\ (s \in {"gpar", "fl_gpar", "fr_gpar"} => (parentGroupApplies \/ m[IF s = "gpar" THEN "gsub" ELSE IF s = "fl_gpar" THEN "fl_gsub" ELSE "fr_gsub"] = NoSec))
   IN FoldLeft(LAMBDA v, s : IF usable(s) THEN apply(v, s) ELSE v, default, order)
+
+ImplValue(stack, a, default, wholeEntry, inConf, pga) == ImplValueG(stack, a, default, wholeEntry, inConf, pga, TRUE)
 
 \* C12 for one attribute
 Agrees(stack, a, default, wholeEntry, inConf, pga) == ImplValue(stack, a, default, wholeEntry, inConf, pga) \in RefValues(stack, a, default)
